@@ -287,7 +287,8 @@ class SimExecutor(cf.Executor):
 		"""Interleaved thread flavour: let the task's thread run for `quantum` line events. True if it finished."""
 		if task.thread is None:
 			task.go = threading.Semaphore(0)
-			task.thread = threading.Thread(target=_task_thread, args=(self.sim, task), daemon=True)
+			from . import escape
+			task.thread = escape.own_thread(target=_task_thread, args=(self.sim, task), daemon=True)
 			task.thread.start()
 		task.budget = quantum
 		task.go.release()
@@ -493,6 +494,8 @@ def rebind_module(mod):
 def activate(sim):
 	global _active
 	_active = sim
+	from . import escape
+	escape.watch(sim.ctx)
 
 
 def deactivate():
@@ -500,6 +503,8 @@ def deactivate():
 	if _active is not None:
 		_active.finish()
 	_active = None
+	from . import escape
+	escape.unwatch()
 
 
 def real(name):
